@@ -765,3 +765,170 @@ def replay_client_poll_schedule(k, sched, seed=0):
         return {'log': log, 'final': final}, leftover
     finally:
         w.close()
+
+
+# ---- polling session being upgraded (EioQueueFineUp) ------------------------------------------
+
+class _Flag:
+    """Logging descriptor for a Socket flag: every write is one record of hub.primlog and a
+    switch point (the order of the writes is part of EioQueueFineUp)."""
+    def __init__(self, name):
+        self.name, self.slot = name, '_v_' + name
+
+    def __get__(self, obj, cls=None):
+        if obj is None:
+            return self
+        return obj.__dict__.get(self.slot, False)
+
+    def __set__(self, obj, value):
+        obj.__dict__[self.slot] = value
+        hub = hubmod.hub()
+        if hub is not None and hub.primlog is not None and getattr(hub, 'log_flags', False) and \
+                getattr(hub.current, 'proc', None) is not None:
+            rec = {'t': hub.current.proc, 'op': 'flag',
+                   'item': '%s=%s' % (self.name, 'T' if value else 'F'), 'q': 'flag'}
+            hub.primlog.append(rec)
+            hub.after_log(rec)
+            hub.yield_point()
+
+
+def gen_up_script(rng, wellbehaved):
+    """Groups of operations started together; the client's frames (probe / upgrade / bad / gone)
+    are sent between groups, when the server is quiescent."""
+    out = []
+    hs = rng.choice([['probe', 'upgrade'], ['probe', 'upgrade'], ['probe', 'upgrade'],
+                     ['bad1'], ['probe', 'bad2'], ['gone'], ['probe', 'gone']])
+    pre = rng.randint(0, 2)
+    for _ in range(pre):
+        out.append([rng.choice(['poll', 'send', 'send']) for _ in range(rng.randint(1, 3))])
+    out.append([rng.choice(['poll', 'send']) for _ in range(rng.randint(0, 2))] + ['upg'] +
+               [rng.choice(['poll', 'send']) for _ in range(rng.randint(0, 2))])
+    for f in hs:
+        out.append([f] + [rng.choice(['poll', 'send', 'send']) for _ in range(rng.randint(0, 3))])
+    for _ in range(rng.randint(1, 2)):
+        out.append([rng.choice(['poll', 'send', 'send']) for _ in range(rng.randint(1, 3))])
+    return {'groups': out, 'wb': wellbehaved}
+
+
+def run_up(script, seed):
+    """One polling session of the real threaded Server being upgraded.  Proc 1 = the upgrade
+    request (later the reader), Proc 2 = the writer thread it starts, 3.. = GETs and send()
+    calls.  A well-behaved script (wb) has one GET outstanding at a time and sends UPGRADE only
+    when none is."""
+    import engineio.socket as ES
+    saved = {n: ES.Socket.__dict__.get(n) for n in ('upgrading', 'upgraded')}
+    ES.Socket.upgrading = _Flag('upgrading')
+    ES.Socket.upgraded = _Flag('upgraded')
+    w = W.make_world('sync', {'ping_interval': 4000, 'ping_timeout': 2000, 'monitor': False},
+                     seed=seed, preempt=True)
+    facts = {'script': script, 'schedule_seed': seed}
+    try:
+        hub = w.hub
+        hub.no_start_yield = True
+        hub.log_wswait = True
+        hub.log_flags = True
+        hub.child_proc = {(1, 'writer'): 2}
+        w.connect_plan = [('accept', False)]
+        w.http('GET', 'transport=polling&EIO=4')
+        w.quiesce()
+        sid, so = w.sids[1], w.socks[1]
+        qs = 'transport=polling&EIO=4&sid=' + sid
+        hub.primlog = []
+        log0 = hub.primlog
+        p = 2
+        conn = None
+        stage = 0
+        gone = False
+        polls = []
+
+        def outstanding():
+            return any(not t.done for t in polls)
+
+        def env(item):
+            log0.append({'t': 0, 'op': 'env', 'item': item, 'q': so.queue})
+        for group in script['groups']:
+            for k in group:
+                if k in ('probe', 'bad1', 'upgrade', 'bad2', 'gone'):
+                    if conn is None or not conn.accepted or conn.ended or gone:
+                        continue
+                    if k in ('probe', 'bad1'):
+                        if stage != 0:
+                            continue
+                        env(k)
+                        w.ws_frame_conn(conn, '2probe' if k == 'probe' else '4x')
+                        stage = 1
+                    elif k in ('upgrade', 'bad2'):
+                        if stage != 1 or not conn.out:
+                            continue
+                        if script['wb'] and outstanding():
+                            continue
+                        env(k)
+                        w.ws_frame_conn(conn, '5' if k == 'upgrade' else '4x')
+                        stage = 2
+                    else:
+                        if stage >= 2 or conn.inq.items:
+                            continue
+                        env('gone')
+                        w.ws_drop_conn(conn)
+                        gone = True
+                    continue
+                if k == 'upg':
+                    if conn is not None:
+                        continue
+                    rid = w.ws_request('transport=websocket&EIO=4&sid=' + sid, slot=1)
+                    conn = w.reqs[rid].conn
+                    w.reqs[rid].task.proc = 1
+                    log0.append({'t': 1, 'op': 'start', 'item': 'upg', 'q': so.queue})
+                    continue
+                if k == 'poll' and script['wb'] and outstanding():
+                    continue
+                p += 1
+                if k == 'poll':
+                    task = w.reqs[w.http('GET', qs, slot=1)].task
+                    polls.append(task)
+                elif k == 'send':
+                    task = w.reqs[w.app_send(1)]['task']
+                else:
+                    raise ValueError(k)
+                task.proc = p
+                log0.append({'t': p, 'op': 'start', 'item': k, 'q': so.queue})
+            w.quiesce()
+        log = []
+        for e in hub.primlog:
+            if e['op'] == 'ret':
+                if e['t'] is not None:
+                    log.append({'t': e['t'], 'op': 'ret', 'item': ''})
+                continue
+            if e['q'] in ('wswait', 'flag'):
+                if e['t'] != 1:
+                    raise RuntimeError('%s by task %r' % (e['op'], e['t']))
+                log.append({'t': 1, 'op': e['op'], 'item': e['item']})
+                continue
+            if e['q'] is not so.queue:
+                continue
+            if e['t'] is None:
+                raise RuntimeError('queue primitive by a task outside the script: %r' % e['op'])
+            it = e['item']
+            if e['op'] in ('put', 'get', 'put_enter'):
+                it = 'NIL' if it is None else w._pkt_token(1, it)
+            log.append({'t': e['t'], 'op': e['op'], 'item': it if it is not None else ''})
+        hub.primlog = None
+        snap = w.snapshot(1)
+        dl = snap['deliv'][0]
+        final = {'q': snap['ss'][0]['q'], 'unf': snap['ss'][0]['unf'],
+                 'intable': sid in w.server.sockets, 'sent': len(w.accepted.get(1, [])),
+                 'upgrading': bool(so.upgrading), 'upgraded': bool(so.upgraded),
+                 'pdeliv': [d[0] for d in dl if d[1] != 'ws'],
+                 'wdeliv': [d[0] for d in dl if d[1] == 'ws']}
+        facts['nproc'] = p
+        return {'log': log, 'final': final}, facts
+    finally:
+        w.close()
+        for n, v in saved.items():
+            if v is None:
+                try:
+                    delattr(ES.Socket, n)
+                except AttributeError:
+                    pass
+            else:
+                setattr(ES.Socket, n, v)
